@@ -367,33 +367,43 @@ def _prefix_append(fn, n, pieces):
 
 
 def _done_pred_for(fn):
-    """predicate on condition atoms: the expression is the current value of input_done() -- the call itself, or a local that is
-    only ever initialised from input_done() with no get_input() between that initialisation and the use"""
+    """predicate on condition atoms: the expression is the current value of input_done() -- the call itself, or a local flag all of
+    whose definitions are `= input_done()` with no get_input() between the reaching definition and the use"""
     cache = {}
 
     def var_ok(n):
         d = n['d']
-        decl = None
+        defs = []
         for x in fn.all_nodes():
             k = x.get('k')
             if k == 'decl':
                 for v in x['vars']:
                     if v['d'] == d:
-                        if decl is not None or not isinstance(v.get('init'), int) or not _is_call(fn.sn(v['init']), DONE):
+                        if not isinstance(v.get('init'), int) or not _is_call(fn.sn(v['init']), DONE):
                             return False
-                        decl = x['id']
+                        defs.append(x['id'])
             elif k == 'assign':
                 l = fn.sn(x['lhs'])
                 if l is not None and l.get('k') == 'var' and l.get('d') == d:
-                    return False
+                    if x['op'] != '=' or not _is_call(fn.sn(x['rhs']), DONE):
+                        return False
+                    defs.append(x['id'])
             elif k == 'unop' and x['op'] in ('++', '--', '&'):
                 s_ = fn.sn(x['sub'])
                 if s_ is not None and s_.get('k') == 'var' and s_.get('d') == d:
                     return False
-        if decl is None:
+        if not defs:
             return False
         use = n['id']
-        return path_search(fn, decl, lambda e: not isinstance(e, tuple) and _is_call(fn.nodes[e], GET), lambda e: e == use) is None
+        dset = set(defs)
+        gets = [x['id'] for x in fn.all_nodes() if _is_call(x, GET)]
+        # stale if some definition reaches a get_input() and that pop reaches the use, without a new definition in between
+        for df in defs:
+            for g in gets:
+                if path_search(fn, df, lambda e: e == g, lambda e: e in dset) is not None and \
+                        path_search(fn, g, lambda e: e == use, lambda e: e in dset) is not None:
+                    return False
+        return True
 
     def pred(n):
         if _is_call(n, DONE):
@@ -506,14 +516,22 @@ def _windows(fb, S):
                     if m.kind not in ('ctor', 'dtor') and m not in e['refill']:
                         e['refill'].append(m)
         out.extend(w.values())
-    # a pointer initialised from another window pointer (m_end(m_data)) belongs to the same window
+    # a pointer initialised / assigned from another window pointer (m_end(m_data), m_end = m_data + m_input.size()) belongs to the
+    # same window
     for e in out:
-        for m in e['methods']:
-            for n in m.all_nodes():
-                for fld in [f for f in e['rec'].fields if f.get('ptr') and f['q'] not in e['ptrs']]:
-                    rhs = S._field_assign_rhs(m, n, fld['q'])
-                    if rhs is not None and m.member_field(rhs) in e['ptrs']:
-                        e['ptrs'][fld['q']] = fld['name']
+        changed = True
+        while changed:
+            changed = False
+            for m in e['methods']:
+                for n in m.all_nodes():
+                    for fld in [f for f in e['rec'].fields if f.get('ptr') and f['q'] not in e['ptrs']]:
+                        rhs = S._field_assign_rhs(m, n, fld['q'])
+                        if rhs is None:
+                            continue
+                        root, _d = S.walk(m, rhs)
+                        if root is not None and root.startswith('field:') and root[6:] in e['ptrs']:
+                            e['ptrs'][fld['q']] = fld['name']
+                            changed = True
     return out
 
 
@@ -861,13 +879,15 @@ def carry_rules(fb, R, M=None, wins=None):
                     found = None
                     for (c, sense, _b) in guards_of(fn, g['id']):
                         x = fn.sn(c)
-                        if x is None or x.get('k') != 'binop' or not sense:
+                        if x is None or x.get('k') != 'binop' or x['op'] not in ('<', '<=', '>', '>='):
                             continue
                         l, r = fn.sn(x['lhs']), fn.sn(x['rhs'])
-                        if x['op'] == '>':
-                            l, r, op = r, l, '<'
-                        else:
-                            op = x['op']
+                        op = x['op']
+                        if not sense:      # guarded by the condition being false: `!(a >= b)` is `a < b`
+                            op = {'<': '>=', '>=': '<', '>': '<=', '<=': '>'}[op]
+                        if _is_call(r, prefix=STR) and not _is_call(l, prefix=STR):
+                            l, r = r, l
+                            op = {'<': '>', '>': '<', '<=': '>=', '>=': '<='}[op]
                         if _is_call(l, prefix=STR) and _short(l['q']) in ('size', 'length') and _str_call_on(fn, l, carrier) and \
                                 r is not None and r.get('k') == 'var' and r.get('vk') == 'param':
                             found = (op, r)
@@ -1215,32 +1235,24 @@ def xml_rules(fb, R, M=None):
                 pd = fn.sn(a[data_i])['d']
                 g = pieces[pd][1]
                 flag = a[last_i]
-                dones = [fn.nodes[x] for x in fn.subtree(flag) if _is_call(fn.nodes[x], DONE)]
                 fs = fn.sn(flag)
-                if not dones and fs is not None and fs.get('k') == 'var' and fs.get('vk') == 'local':
-                    # a local initialised from input_done()
-                    for n in fn.all_nodes():
-                        if n.get('k') == 'decl':
-                            for v in n['vars']:
-                                if v['d'] == fs['d'] and isinstance(v.get('init'), int):
-                                    dones += [fn.nodes[x] for x in fn.subtree(v['init']) if _is_call(fn.nodes[x], DONE)]
-                    reassigned = any(n.get('k') == 'assign' and (fn.sn(n['lhs']) or {}).get('d') == fs['d'] for n in fn.all_nodes())
-                    if reassigned:
-                        dones = []
-                plain = False
-                if dones:
-                    top = fs if fs is not None and fs.get('k') != 'var' else dones[0]
-                    plain = top is dones[0] or fs.get('k') == 'var'
+                gid = g['id']
                 ok, why = True, ''
-                if not dones or not plain:
-                    ok, why = False, 'the final flag (%s) is not the value of input_done()' % fn.expr(flag)[:60]
-                else:
-                    dn = dones[0]
-                    gid = g['id']
-                    if not fn.elem_dominates(gid, dn['id']):
+                if fs is not None and fs.get('k') == 'var' and fs.get('vk') == 'local':
+                    # a flag variable: every definition is `= input_done()` and none is separated from this use by a get_input();
+                    # as the pop of the fed piece dominates the feed, the reaching definition was evaluated after that pop
+                    if not _done_pred_for(fn)(fs):
+                        ok, why = False, 'the final flag `%s` is not the value of input_done() evaluated after the get_input() whose piece is ' \
+                                         'fed' % fs.get('name')
+                    elif not fn.elem_dominates(gid, c['id']):
+                        ok, why = False, 'the piece fed is not popped on every path to the feed'
+                elif _is_call(fs, DONE):
+                    if not fn.elem_dominates(gid, fs['id']):
                         ok, why = False, 'input_done() is evaluated before the get_input() whose piece is fed'
-                    elif path_search(fn, dn['id'], lambda e: e == gid, lambda e: e == c['id'], _normal_edges(fn)) is not None:
+                    elif path_search(fn, fs['id'], lambda e: e == gid, lambda e: e == c['id'], _normal_edges(fn)) is not None:
                         ok, why = False, 'another get_input() can happen between the evaluation of input_done() and the feed'
+                else:
+                    ok, why = False, 'the final flag (%s) is not the value of input_done()' % fn.expr(flag)[:60]
                 R.check(ok, 'X2-xml-final-flag-from-queue-state', key, fn.loc(c['id']),
                         'in %s %s (with a stale or constant flag expat never sees isFinal and a truncated document is accepted, or it sees '
                         'it one piece early)' % (fn.q, why), 'feeds the popped piece with input_done() evaluated after that pop')
@@ -1299,7 +1311,7 @@ def xml_text_rules(fb, R):
                 key = '%s#%s.%s(%d)' % (fn.q, name, meth, len(args))
                 if id(fn) in chr_ids:
                     params = {p['d'] for p in fn.params}
-                    from_text = bool(args) and (_root(fn, args[0]) or (None, None))[0] == 'var' and _root(fn, args[0])[1] in params
+                    from_text = bool(args) and any(fn.nodes[x].get('k') == 'var' and fn.nodes[x].get('d') in params for x in fn.subtree(args[0]))
                     ok = meth in ('append', 'operator+=', 'push_back') and from_text
                     why = 'appends the text fragment' if ok else \
                         'in the character-data callback the text accumulator may only be appended to with the callback\'s text ' \
